@@ -12,8 +12,15 @@ Sections
   clamping, values at thresholds, betweenness, monotonicity.
 * B. `thresholdIdx`: normal form, bounds, strict sortedness, membership of block starts / ends.
 * C. predictions at training points equal the fitted values (`fit_train_eq`).
-* D. `gpava` never puts a block boundary inside a non-increasing run (`gpava_no_boundary_of_ge`).
-* E. `mergeSort` and row order.
+* D. `gpava` never puts a block boundary inside a non-increasing run (`gpava_no_boundary_of_ge`),
+  lifted to `eqFit` / `isoReg` for every functional (`fit_isoReg_run_const`).
+* E. the sort key `rowLe`, `mergeSort`, tie groups are runs, inversion of a successful `isoFit`,
+  `fit_ties_one_block`.
+* F. the record `fit_Fitted` and the prediction theorems for `isoFit`.
+* G. row order (sorted sample is permutation invariant when duplicate `(X, y)` rows agree in weight).
+* H. training points in the original order; optimality among functions of `X`.
+* I. row order in general (conflicting weights on duplicate `(X, y)` rows) via uniqueness of the
+  minimiser.
 -/
 
 set_option linter.unusedSectionVars false
